@@ -1,0 +1,7 @@
+//go:build !verif
+
+package fontscan
+
+// verifFontDirs is a seam for the verification harness (build tag `verif`).
+// In regular builds it always returns nil and DefaultFontDirectories is unchanged.
+func verifFontDirs() []string { return nil }
